@@ -64,12 +64,6 @@ Inductive result : Type :=
 Definition is_cont (b : Z) : bool := (128 <=? b) && (b <? 192).
 (** [s.chars().count()] : bytes that are not continuation bytes *)
 Definition nchars (s : list Z) : nat := length (filter (fun b => negb (is_cont b)) s).
-(** [s[..n].to_string()] *)
-Definition slice_to (s : list Z) (n : nat) : outcome (list Z) :=
-  if (length s <? n)%nat then Panicked
-  else if (n =? 0)%nat || (n =? length s)%nat then Done (firstn n s)
-  else if is_cont (nth n s 0) then Panicked
-  else Done (firstn n s).
 (** [format!("{:width$}", s, width = n)] : pads with spaces up to [n] *characters* *)
 Definition pad_to (s : list Z) (n : nat) : list Z := s ++ repeat 32 (n - nchars s)%nat.
 (** [s.chars().take(n).collect()] : the bytes of the first [n] characters *)
@@ -80,7 +74,8 @@ Fixpoint take_chars (n : nat) (s : list Z) : list Z :=
       if is_cont b then b :: take_chars n rest          (* continuation byte of a character already taken *)
       else match n with O => [] | S n' => b :: take_chars n' rest end
   end.
-(** [let mut end = n; while !s.is_char_boundary(end) { end -= 1 }] for [n < s.len()] *)
+(** [let mut end = n; while !s.is_char_boundary(end) { end -= 1 }] for [n < s.len()]
+    ([RowNormalizer::truncate_at_char_boundary]) *)
 Fixpoint floor_boundary (s : list Z) (e : nat) : nat :=
   match e with
   | O => O
@@ -100,10 +95,8 @@ Definition normalize_value (ty : coltype) (v : sqlvalue) : outcome sqlvalue :=
     match ty, v with
     | TInt, VInteger _ => Done v
     | TVarchar None, VVarchar _ => Done v
-    | TVarchar (Some m), VVarchar s =>
-        if (m <? length s)%nat
-        then match slice_to s m with Done s' => Done (VVarchar s') | Fail => Fail | Panicked => Panicked end
-        else Done v
+    | TVarchar (Some m), VVarchar s =>        (* cut on a character boundary at or below byte m *)
+        if (m <? length s)%nat then Done (VVarchar (firstn (floor_boundary s m) s)) else Done v
     | TChar n, VCharacter s =>                (* normalize_char_value: counts characters (803c4ba9) *)
         match Nat.compare (nchars s) n with
         | Lt => Done (VCharacter (pad_to s n))
@@ -154,8 +147,8 @@ Definition coerce_lit (ty : coltype) (l : lit) : outcome sqlvalue :=
   | LInt z, TInt => Done (VInteger z)
   | LStr s, TVarchar _ => Done (VVarchar s)
   | LStr s, TChar n =>                                  (* Varchar -> Character{length} *)
-      if (n <? length s)%nat
-      then Done (VCharacter (firstn (floor_boundary s n) s))   (* cut on a character boundary (ba185c41) *)
+      if (n <? nchars s)%nat                                   (* CHAR(n) counts characters *)
+      then Done (VCharacter (take_chars n s))
       else Done (VCharacter (pad_to s n))
   | _, _ => Fail                                        (* "Type mismatch: expected .., got .." *)
   end.
@@ -316,6 +309,7 @@ Inductive change : Type :=
 Record txn : Type := mkTxn {
   x_cat : catalog;                       (* original_catalog *)
   x_tabs : tables;                       (* original_tables *)
+  x_ixs : list (iname * tname * nat);    (* original_indexes: definitions of the user indexes at BEGIN *)
   x_sps : list (spname * nat);           (* savepoints: (name, snapshot_index), newest at the end *)
   x_log : list change                    (* changes *)
 }.
@@ -331,13 +325,35 @@ Record db : Type := mkDb {
 Definition record (d : db) (cs : list change) : db :=
   match d_tx d with
   | None => d
-  | Some x => mkDb (d_cat d) (d_tabs d) (d_uix d) (Some (mkTxn (x_cat x) (x_tabs x) (x_sps x) (x_log x ++ cs)))
+  | Some x => mkDb (d_cat d) (d_tabs d) (d_uix d) (Some (mkTxn (x_cat x) (x_tabs x) (x_ixs x) (x_sps x) (x_log x ++ cs)))
   end.
 
-(** [Database::begin_transaction] : snapshot of (catalog, tables) only *)
+(** [Operations::index_definitions] : name, table and column of every storage index *)
+Definition ix_defs (U : list uindex) : list (iname * tname * nat) :=
+  map (fun ix => (ix_name ix, ix_table ix, ix_col ix)) U.
+
+(** the rebuild loop of [Database::rollback_transaction]: after every storage index was dropped,
+    [Operations::create_index] for each remembered definition over the restored tables; the first
+    failing definition (table gone, column gone, name already taken) ends the loop with an error and
+    leaves the indexes created so far *)
+Fixpoint rebuild_defs (T : tables) (defs : list (iname * tname * nat)) (acc : list uindex) : list uindex * bool :=
+  match defs with
+  | [] => (acc, true)
+  | (i, t, c) :: rest =>
+      match get_table T t with
+      | None => (acc, false)
+      | Some tb =>
+          if (length (t_cols tb) <=? c)%nat then (acc, false)
+          else if existsb (fun ix => ix_name ix =? i) acc then (acc, false)
+          else rebuild_defs T rest (acc ++ [mkIx i t c (idx_build c 0 (t_rows tb) [])])
+      end
+  end.
+
+(** [Database::begin_transaction] : snapshot of (catalog, tables) and the definitions (not the
+    contents) of the user indexes *)
 Definition begin_txn (d : db) : db * result :=
   match d_tx d with
-  | None => (mkDb (d_cat d) (d_tabs d) (d_uix d) (Some (mkTxn (d_cat d) (d_tabs d) [] [])), ROk 0)
+  | None => (mkDb (d_cat d) (d_tabs d) (d_uix d) (Some (mkTxn (d_cat d) (d_tabs d) (ix_defs (d_uix d)) [] [])), ROk 0)
   | Some _ => (d, RErr)
   end.
 
@@ -349,11 +365,15 @@ Definition commit_txn (d : db) : db * result :=
   end.
 
 (** [Database::rollback_transaction] -> [Lifecycle::perform_rollback] ->
-    [TransactionManager::rollback_transaction] : [*catalog = original_catalog; *tables = original_tables] *)
+    [TransactionManager::rollback_transaction] : [*catalog = original_catalog; *tables = original_tables],
+    the transaction state is cleared; then every storage index is dropped and the indexes remembered at
+    BEGIN are created again from the restored tables *)
 Definition rollback_txn (d : db) : db * result :=
   match d_tx d with
   | None => (d, RErr)
-  | Some x => (mkDb (x_cat x) (x_tabs x) (d_uix d) None, ROk 0)
+  | Some x =>
+      let '(U, ok) := rebuild_defs (x_tabs x) (x_ixs x) [] in
+      (mkDb (x_cat x) (x_tabs x) U None, if ok then ROk 0 else RErr)
   end.
 
 (** * INSERT at the storage API *)
@@ -589,8 +609,7 @@ Definition q_point (d : db) (t : tname) (c : nat) (k : Z) (ordered : bool) : opt
   end.
 
 (** [Database::list_indexes] (storage side) *)
-Definition storage_index_listing (d : db) : list (iname * tname * nat) :=
-  map (fun ix => (ix_name ix, ix_table ix, ix_col ix)) (d_uix d).
+Definition storage_index_listing (d : db) : list (iname * tname * nat) := ix_defs (d_uix d).
 
 (** observational equality of two databases: catalog listing, table contents, storage index listing
     and the answer of every point query (through an index where the engine would use one) *)
